@@ -48,8 +48,10 @@ Step(e) ==
                \o (IF e.open = "ok" /\ ~e.found THEN <<[diag |-> "dataset-missing"]>> ELSE <<>>)
                \o (IF e.open = "ok" /\ e.found /\ e.cls # 9
                    THEN <<[diag |-> "not-recognised-as-variable-length", cls |-> e.cls, size |-> e.size]>> ELSE <<>>)
-               \o (IF e.open = "ok" /\ e.found /\ e.cls = 9 /\ (e.vltype # BaseOf.vl \/ e.basecls # BaseOf.cls \/ e.basesize # BaseOf.size)
-                   THEN <<[diag |-> "wrong-base-type", vltype |-> e.vltype, basecls |-> e.basecls, basesize |-> e.basesize]>> ELSE <<>>)
+               \o (IF e.open = "ok" /\ e.found /\ e.cls = 9 /\ (e.vltype # BaseOf.vl \/ e.basecls # BaseOf.cls \/ e.basesize # BaseOf.size
+                                                             \/ (cfg.base = "i32" /\ "basesign" \in DOMAIN e /\ e.basesign # 1))    \* a signed base type stays signed
+                   THEN <<[diag |-> "wrong-base-type", vltype |-> e.vltype, basecls |-> e.basecls, basesize |-> e.basesize,
+                           basesign |-> IF "basesign" \in DOMAIN e THEN e.basesign ELSE -1]>> ELSE <<>>)
                \o (IF e.rstr = "differs" THEN <<[diag |-> "ReadStrings-returns-other-values"]>> ELSE <<>>)
                \o (IF e.rf64 = "values" THEN <<[diag |-> "Read-returns-numbers-for-vlen-data"]>> ELSE <<>>)
                \* the library offers no element read for vlen datasets: reported, the independent decode below decides content
